@@ -1,8 +1,10 @@
 package string_helper
 
-import "sort"
-
 func StringArrayContains(s []string, searchterm string) bool {
-	i := sort.SearchStrings(s, searchterm)
-	return i < len(s) && s[i] == searchterm
+	for _, item := range s {
+		if item == searchterm {
+			return true
+		}
+	}
+	return false
 }
